@@ -412,7 +412,7 @@ func checkC08(r *fw.Run) {
 		}
 	}
 	rng := r.Rng("seq")
-	for i := 0; i < r.Pick(600, 6000); i++ {
+	for i := 0; i < r.Pick(600, 20000); i++ {
 		progs = append(progs, c08Seq(i, rng))
 	}
 	r.Extra("programs", len(progs))
